@@ -35,10 +35,10 @@ Lemma texp_wf_ext s s' T e :
   (forall n, has s n -> has s' n) ->
   (forall n, has s n -> scope (nd s' n) = scope (nd s n)) ->
   (forall n, has s n -> nkind (nd s' n) = nkind (nd s n)) ->
-  texp_wf s T e -> texp_wf s' T e.
+  forall root, texp_wf s T root e -> texp_wf s' T root e.
 Proof.
   intros Hh Hs Hk. revert e.
-  fix IH 1. intros e. destruct e as [k| |t|f e|f e1 e2|c e|cs e|]; simpl; try tauto.
+  fix IH 1. intros e root. destruct e as [k| |t|f e|f e1 e2|c e|cs e|]; simpl; try tauto.
   - intros (H1 & H2 & H3 & H4). rewrite Hs, Hk by exact H1. auto.
   - apply IH.
   - intros [H1 H2]. split; apply IH; assumption.
@@ -552,7 +552,7 @@ End new_top.
 
 (** templates accepted by [op_ok] and [op_clean] are well-formed for a bind created now *)
 Lemma texp_ok_wf s : ids_ok s -> forall e root,
-  texp_ok s root e = true -> texp_top s e = true -> texp_wf s (next s) e.
+  texp_ok s root e = true -> texp_top s e = true -> texp_wf s (next s) root e.
 Proof.
   intros Hids. fix IH 1. intros e root. destruct e as [k| |t|f e|f e1 e2|c e|cs e|]; simpl; try tauto.
   - intros [Hh Hk]%isUserNode_true [_ Hs]%isTop_true. split; [exact Hh|]. split; [exact Hs|].
@@ -571,7 +571,7 @@ Section new_bind.
   Context (s : state) (cases : list texp) (a : nid).
   Hypothesis (HI : Inv s).
   Hypothesis (Ha : has s a) (Has : scope (nd s a) = None).
-  Hypothesis (Hcases : Forall (texp_wf s (next s)) cases).
+  Hypothesis (Hcases : Forall (texp_wf s (next s) true) cases).
   Let s' := (newBindWith false s cases a None).1.
   Let x := next s.
   Let rec := mkBind a x (S x) None [] cases 0%nat false [].
@@ -1110,7 +1110,8 @@ Record td_frame (s s' : state) : Prop := {
   tf_log : exists l, log s' = l ++ log s /\ Forall is_unnec l;
   tf_handlers : forall x, x ∈ handlers s' -> x ∈ handlers s;
   tf_setDuring : forall x, x ∈ setDuring s' -> x ∈ setDuring s;
-  tf_setRemoved : setDuring s = [] -> setRemoved s' = setRemoved s
+  tf_setRemoved : setDuring s = [] -> setRemoved s' = setRemoved s;
+  tf_setRemoved2 : forall x, x ∈ setRemoved s' -> x ∈ setRemoved s \/ x ∈ setDuring s
 }.
 
 Lemma td_frame_refl s : td_frame s s.
@@ -1142,6 +1143,9 @@ Proof.
   - intros E. rewrite (tf_setRemoved _ _ B); [apply A, E|].
     destruct (setDuring s2) as [|y l] eqn:E2; [reflexivity|].
     assert (y ∈ setDuring s1) as Hy by (apply A; rewrite E2; left). rewrite E in Hy. inversion Hy.
+  - intros x Hx. destruct (tf_setRemoved2 _ _ B x Hx) as [Hx'|Hx'].
+    + apply (tf_setRemoved2 _ _ A x Hx').
+    + right. apply (tf_setDuring _ _ A x Hx').
 Qed.
 
 Lemma td_frame_unlink s c p : td_frame s (unlink s c p).
@@ -1182,6 +1186,8 @@ Proof.
   - intros x. rewrite (setDuring_removeNode s n s' H), elem_of_rm. tauto.
   - intros E. rewrite (setRemoved_removeNode s n s' H), E.
     rewrite bool_decide_eq_false_2; [reflexivity|]. intros Hx; inversion Hx.
+  - intros x. rewrite (setRemoved_removeNode s n s' H). case_bool_decide as Hn; [|auto].
+    rewrite elem_of_app, elem_of_list_singleton. intros [?| ->]; auto.
 Qed.
 
 Lemma rfold_td_frame {A} (f : state -> A -> res state) l s s' :
@@ -3316,6 +3322,10 @@ Lemma adj_ok_frame s s' :
   adj_ok s -> adj_ok s'.
 Proof. intros E1 E2 E3 [A1 A2 A3]. split; rewrite ?E1, ?E2; auto. intros n. rewrite E3. apply A3. Qed.
 
+Section adjust.
+  (* [Pop]: the nodes that may enter the adjust-heights heap (a downward-closed set: see [as_pop]) *)
+  Context (Pop : nid -> Prop).
+
 (** the height invariant while heights are being adjusted: an edge may be violated only if its
     lower endpoint waits in the adjust-heights heap, or the edge is explicitly exempt *)
 Record HInv (exP exS : nid -> nid -> Prop) (s : state) : Prop := {
@@ -3327,7 +3337,8 @@ Record HInv (exP exS : nid -> nid -> Prop) (s : state) : Prop := {
   h_zero : forall m, inGraph (nd s m) = false -> height (nd s m) = unset;
   h_heap : hinv (heap s) /\ forall n, n ∈ Heap.ids (heap s) ->
              inGraph (nd s n) = true /\ (hAdj (nd s n) = unset -> Heap.hinOf (heap s) n = height (nd s n));
-  h_adj : adj_ok s
+  h_adj : adj_ok s;
+  h_pop : forall x, hAdj (nd s x) <> unset -> Pop x
 }.
 
 Definition noEx : nid -> nid -> Prop := fun _ _ => False.
@@ -3337,7 +3348,7 @@ Lemma HInv_weaken (exP exS exP' exS' : nid -> nid -> Prop) s :
   (forall m q, inGraph (nd s m) = true -> scope (nd s m) = Some q -> exS m q -> exS' m q) ->
   HInv exP exS s -> HInv exP' exS' s.
 Proof.
-  intros H1 H2 [A B C D E F]. constructor; auto.
+  intros H1 H2 [A B C D E F G]. constructor; auto.
 Qed.
 
 (** structural facts adjusting relies on (none of them reads a height) *)
@@ -3345,15 +3356,17 @@ Record AStat (s : state) : Prop := {
   as_edges : edges_ok s;
   as_nec : forall m, inGraph (nd s m) = isNecessary (nd s m);
   as_child : forall c p, c ∈ children (nd s p) -> inGraph (nd s c) = true /\ c <> p;
-  as_scope : forall m b, inGraph (nd s m) = true -> scope (nd s m) = Some b ->
+  as_scope : forall m b, inGraph (nd s m) = true -> scope (nd s m) = Some b -> Pop b ->
                          m ∈ b_rhsNodes (bd s b) /\ nkind (nd s b) = KBindLhs b /\ m <> b;
   as_kind : forall p b, has s p -> nkind (nd s p) = KBindLhs b -> b = p;
-  as_rhs : forall b r, r ∈ b_rhsNodes (bd s b) -> r <> b
+  as_rhs : forall b r, r ∈ b_rhsNodes (bd s b) -> r <> b /\ scope (nd s r) = Some b;
+  as_pop : forall c p, Pop p -> inGraph (nd s c) = true ->
+                       c ∈ children (nd s p) \/ scope (nd s c) = Some p -> Pop c
 }.
 
 Lemma AStat_frame s s' : aj_frame s s' -> AStat s -> AStat s'.
 Proof.
-  intros F [A B C D E G].
+  intros F [A B C D E G H].
   assert (Hp : forall m, parents (nd s' m) = parents (nd s m)) by (intros m; apply (af_node _ _ F m)).
   assert (Hc : forall m, children (nd s' m) = children (nd s m)) by (intros m; apply (af_node _ _ F m)).
   assert (Hg : forall m, inGraph (nd s' m) = inGraph (nd s m)) by (intros m; apply (af_node _ _ F m)).
@@ -3366,11 +3379,12 @@ Proof.
   - intros c p. rewrite Hc, Hg. apply C.
   - intros m b. rewrite Hg, Hsc, Hbd, Hk. apply D.
   - intros p b. rewrite (af_has _ _ F), Hk. apply E.
-  - intros b r. rewrite Hbd. apply G.
+  - intros b r. rewrite Hbd, Hsc. apply G.
+  - intros c p. rewrite Hg, Hc, Hsc. apply H.
 Qed.
 
 Lemma ensure_spec (exP exS : nid -> nid -> Prop) s oP c p s' e :
-  HInv exP exS s -> inGraph (nd s c) = true -> c <> p ->
+  HInv exP exS s -> inGraph (nd s c) = true -> c <> p -> Pop c ->
   ensureHeightRequirement s oP c p = Ok (s', e) ->
   match e with
   | None => HInv (fun m q => exP m q /\ ~ (m = c /\ q = p)) (fun m q => exS m q /\ ~ (m = c /\ q = p)) s' /\
@@ -3378,11 +3392,11 @@ Lemma ensure_spec (exP exS : nid -> nid -> Prop) s oP c p s' e :
   | Some x => x = ECycle \/ x = EHeightLimit
   end.
 Proof.
-  intros HI Hgc Hcp H. unfold ensureHeightRequirement in H.
+  intros HI Hgc Hcp Hpc H. unfold ensureHeightRequirement in H.
   destruct (bool_decide (oP = c)); [apply fail_inv in H as [_ ->]; auto|].
   destruct (Z.geb_spec (height (nd s p)) (height (nd s c))) as [Hge|Hlt].
   2:{ apply ok_inv in H as [-> ->]. split; [|split; [apply aj_frame_refl|split; [auto|lia]]].
-      destruct HI as [A B C D E F]. constructor; auto.
+      destruct HI as [A B C D E F G]. constructor; auto.
       - intros m q Hm Hq Hj Hex. destruct (decide (m = c /\ q = p)) as [[-> ->]|Hne]; [exact Hlt|].
         apply B; auto; intros Hx; apply Hex; auto.
       - intros m q Hm Hq Hj Hex. destruct (decide (m = c /\ q = p)) as [[-> ->]|Hne]; [exact Hlt|].
@@ -3409,7 +3423,7 @@ Proof.
   { intros m Hm Hu. rewrite Hj2 in Hu. destruct (decide (hAdj (nd s m) = unset)) as [|Hn]; [assumption|].
     exfalso. assert (hAdj (nd s1 m) <> unset) by (apply Hj1; auto). contradiction. }
   split; [|split; [exact F|split]].
-  - destruct HI as [A B C D [E1 E2] G]. constructor.
+  - destruct HI as [A B C D [E1 E2] G GP]. constructor.
     + intros m. rewrite Hg, Hh2, (af_maxHeight _ _ F). intros Hm. destruct (decide (m = c)) as [->|]; [|apply A, Hm].
       pose proof (setHeight_le _ _ _ _ H2) as Hle. rewrite (af_maxHeight _ _ F1) in Hle.
       destruct (A c Hgc). lia.
@@ -3436,6 +3450,7 @@ Proof.
     + apply (adj_ok_frame s1 s'); auto.
       * unfold adj_ids. rewrite (a_byHeight_setHeight _ _ _ _ H2). reflexivity.
       * apply (a_num_setHeight _ _ _ _ H2).
+    + intros x. rewrite Hj2, Hj1. intros [->|Hx]; [exact Hpc|apply GP, Hx].
   - intros m Hm. rewrite Hnd2 by exact Hm.
     apply adjAdd_inv in H1 as [[_ ->]|(_ & _ & q & _ & ->)]; [reflexivity|].
     match goal with |- nd (?a <| adj := ?b |>) m = _ => change (nd (a <| adj := b |>) m) with (nd a m) end.
@@ -3479,6 +3494,7 @@ Proof.
   apply rbind_ok in H as ([popped s1] & H1 & H). destruct popped as [p|]; [|discriminate].
   destruct (adj_ok_pop s p s1 (h_adj _ _ _ HI) H1) as (A1 & F1 & Hw1 & Hjp & Hh1 & Hj1).
   assert (Hp : has s p) by (apply (has_of_field hAdj); exact Hjp).
+  assert (Hpp : Pop p) by (apply (h_pop _ _ _ HI), Hjp).
   apply ebind_inv in H as (s2 & e2 & H2 & Hrest). apply lift_inv in H2 as [H2 ->].
   destruct Hrest as [[_ H]|(Hne & _)]; [|congruence].
   assert (Hg1 : forall m, inGraph (nd s1 m) = inGraph (nd s m)) by (intros m; apply (af_node _ _ F1 m)).
@@ -3507,7 +3523,7 @@ Proof.
   assert (St2 : AStat s2) by (apply (AStat_frame s s2 F2 St)).
   assert (Hnd2 : forall m, nd s2 m = nd s1 m) by apply (oh_nd _ _ F12).
   assert (HI2 : HInv (fun m q => q = p /\ m ∈ children (nd s2 p)) (fun m q => q = p) s2).
-  { destruct HI as [A B C D E G]. constructor.
+  { destruct HI as [A B C D E G GP]. constructor.
     - intros m. rewrite Hnd2, Hg1, Hh1, (af_maxHeight _ _ F2). apply A.
     - intros m q. rewrite !Hnd2, Hg1, !Hh1, Hj1. destruct (af_node _ _ F1 m) as (_&_&_&->&_).
       intros Hm Hq Hj Hex. destruct (decide (q = p)) as [->|Hqp].
@@ -3522,7 +3538,8 @@ Proof.
     - apply (adj_ok_frame s1 s2); auto.
       + unfold adj_ids. rewrite (oh_adj _ _ F12). reflexivity.
       + rewrite (oh_adj _ _ F12). reflexivity.
-      + intros m. rewrite Hnd2. reflexivity. }
+      + intros m. rewrite Hnd2. reflexivity.
+    - intros x. rewrite Hnd2, Hj1. destruct (decide (x = p)); [congruence|apply GP]. }
   (* the children of p *)
   apply ebind_inv in H as (s3 & e3 & H3 & Hrest).
   pose (I3 := fun (rest : list nid) (st : state) =>
@@ -3536,7 +3553,10 @@ Proof.
     destruct (as_child s2 St2 c p (Hsub c ltac:(left))) as [Hgc Hcp].
     assert (Hgc' : inGraph (nd st c) = true).
     { destruct (af_node _ _ Fst c) as (_&_&_&_&_&_&_&_&->&_). exact Hgc. }
-    pose proof (ensure_spec _ _ st oP c p st1 e1 Hst Hgc' Hcp Hc) as E.
+    assert (Hpopc : Pop c).
+    { apply (as_pop st Stst c p Hpp Hgc'). left.
+      destruct (af_node _ _ Fst p) as (_&_&_&_&->&_). apply Hsub. left. }
+    pose proof (ensure_spec _ _ st oP c p st1 e1 Hst Hgc' Hcp Hpopc Hc) as E.
     destruct e1 as [x|]; [exact E|]. destruct E as (E1 & E2 & E3 & _).
     split; [|split; [eapply aj_frame_trans; eauto|split]].
     - eapply HInv_weaken; [| |exact E1].
@@ -3559,7 +3579,7 @@ Proof.
       try (apply ok_inv in H4 as [-> ->]; split; [|apply aj_frame_refl];
            eapply HInv_weaken; [| |exact HI3];
            [intros m q _ _ [_ Hm]; inversion Hm
-           |intros m q Hm Hq ->; destruct (as_scope s3 St3 m p Hm Hq) as (_ & Hk & _); congruence]).
+           |intros m q Hm Hq ->; destruct (as_scope s3 St3 m p Hm Hq Hpp) as (_ & Hk & _); congruence]).
     assert (b = p) as -> by (apply (as_kind s3 St3 p b Hp3 Ek)).
     pose (I4 := fun (rest : list nid) (st : state) =>
       HInv noEx (fun m q => q = p /\ m ∈ rest) st /\ aj_frame s3 st /\
@@ -3567,16 +3587,18 @@ Proof.
     assert (I40 : I4 (b_rhsNodes (bd s3 p)) s3).
     { split; [|split; [apply aj_frame_refl|auto]]. eapply HInv_weaken; [| |exact HI3].
       - intros m q _ _ [_ Hm]. inversion Hm.
-      - intros m q Hm Hq ->. split; [reflexivity|]. apply (as_scope s3 St3 m p Hm Hq). }
+      - intros m q Hm Hq ->. split; [reflexivity|]. apply (as_scope s3 St3 m p Hm Hq Hpp). }
     assert (L4' : match e4 with None => I4 [] s4 | Some x => adj_err x end).
     { eapply (efold_inv I4 (fun _ x => adj_err x)); [exact I40| |exact H4].
       intros r rest st st1 e1 (Hst & Fst & Hsub) Hr.
       assert (Fst' : aj_frame s st) by (eapply aj_frame_trans; eauto).
       assert (Stst : AStat st) by (apply (AStat_frame s st Fst' St)).
-      assert (Hrp : r <> p) by (apply (as_rhs s3 St3 p r), Hsub; left).
+      destruct (as_rhs s3 St3 p r (Hsub r ltac:(left))) as [Hrp Hrs].
       destruct (isNecessary (nd st r)) eqn:En.
       - assert (Hgr : inGraph (nd st r) = true) by (rewrite (as_nec st Stst r); exact En).
-        pose proof (ensure_spec _ _ st oP r p st1 e1 Hst Hgr Hrp Hr) as E.
+        assert (Hpopr : Pop r).
+        { apply (as_pop st Stst r p Hpp Hgr). right. destruct (af_node _ _ Fst r) as (_&_&->&_). exact Hrs. }
+        pose proof (ensure_spec _ _ st oP r p st1 e1 Hst Hgr Hrp Hpopr Hr) as E.
         destruct e1 as [x|]; [exact E|]. destruct E as (E1 & E2 & _).
         split; [|split; [eapply aj_frame_trans; eauto|]].
         + eapply HInv_weaken; [| |exact E1].
@@ -3607,21 +3629,21 @@ Proof.
 Qed.
 
 Lemma adjustHeights_spec fuel s oC oP s' e :
-  AStat s -> HInv (fun m q => m = oC /\ q = oP) noEx s -> inGraph (nd s oC) = true -> oC <> oP ->
+  AStat s -> HInv (fun m q => m = oC /\ q = oP) noEx s -> inGraph (nd s oC) = true -> oC <> oP -> Pop oC ->
   adjustHeights fuel s oC oP = Ok (s', e) ->
   match e with
   | None => HInv noEx noEx s' /\ a_num (adj s') <= 0 /\ aj_frame s s'
   | Some x => adj_err x
   end.
 Proof.
-  intros St HI Hg Hne H. unfold adjustHeights in H.
+  intros St HI Hg Hne Hpo H. unfold adjustHeights in H.
   set (s0 := s <| adj := adj s <| a_lower := height (nd s oC) |> |>) in *.
   assert (F0 : aj_frame s s0).
   { split; try reflexivity. intros m. repeat split. }
   assert (HI0 : HInv (fun m q => m = oC /\ q = oP) noEx s0).
-  { destruct HI as [A B C D E G]. constructor; auto. destruct G as [G1 G2 G3]. split; auto. }
+  { destruct HI as [A B C D E G GP]. constructor; auto. destruct G as [G1 G2 G3]. split; auto. }
   apply ebind_inv in H as (s1 & e1 & H1 & Hrest).
-  pose proof (ensure_spec _ _ s0 oP oC oP s1 e1 HI0 Hg Hne H1) as E.
+  pose proof (ensure_spec _ _ s0 oP oC oP s1 e1 HI0 Hg Hne Hpo H1) as E.
   destruct e1 as [x|].
   { destruct Hrest as [[? _]|(_ & _ & ->)]; [discriminate|exact E]. }
   destruct Hrest as [[_ H]|(Hne' & _)]; [|congruence].
@@ -3641,7 +3663,7 @@ Lemma HInv_done s : HInv noEx noEx s -> a_num (adj s) <= 0 ->
   (forall m, hAdj (nd s m) = unset) /\ a_num (adj s) = 0 /\ Forall (fun q => q = []) (a_byHeight (adj s)) /\
   height_ok s /\ heap_ok s.
 Proof.
-  intros [A B C D [E1 E2] [G1 G2 G3]] Hle.
+  intros [A B C D [E1 E2] [G1 G2 G3] _] Hle.
   assert (Hids : adj_ids s = []).
   { destruct (adj_ids s) as [|x l] eqn:E; [reflexivity|]. rewrite G2 in Hle. simpl in Hle. lia. }
   assert (Hj : forall m, hAdj (nd s m) = unset).
@@ -3654,6 +3676,8 @@ Proof.
       apply C; auto; intros [].
   - split; [exact E1|]. intros n Hn. destruct (E2 n Hn) as [Hg Hh]. split; [exact Hg|apply Hh, Hj].
 Qed.
+
+End adjust.
 
 (** ** [addChild]: link, make the input necessary, adjust heights, queue the child *)
 Record ac_frame (s s' : state) : Prop := {
@@ -3734,14 +3758,16 @@ Proof.
 Qed.
 
 (** the structural facts adjusting needs, from the invariant with some nodes still open *)
-Lemma AStat_of X s :
+Lemma AStat_of (Pop : nid -> Prop) X s :
   Sta s -> BInv X s ->
   (forall x, x ∈ X -> inGraph (nd s x) = isNecessary (nd s x) /\
                       forall q, q ∈ parents (nd s x) -> q ∈ decl (nd s x)) ->
-  (forall n b, has s n -> scope (nd s n) = Some b -> ~ inGen s b n -> valid (nd s n) = false) ->
-  AStat s.
+  (forall n b, has s n -> scope (nd s n) = Some b -> ~ inGen s b n -> Pop b -> valid (nd s n) = false) ->
+  (forall c p, Pop p -> inGraph (nd s c) = true ->
+               c ∈ children (nd s p) \/ scope (nd s c) = Some p -> Pop c) ->
+  AStat Pop s.
 Proof.
-  intros St B HX Hdead.
+  intros St B HX Hdead Hpop.
   assert (Hpd : forall m q, q ∈ parents (nd s m) -> q ∈ decl (nd s m)).
   { intros m q Hq. destruct (decide (m ∈ X)) as [Hx|Hx]; [apply (HX m Hx), Hq|].
     destruct (inGraph (nd s m)) eqn:Eg.
@@ -3754,14 +3780,15 @@ Proof.
     + destruct (inGraph (nd s c)) eqn:Eg; [reflexivity|].
       destruct (b_zero1 _ _ B c Eg) as [E _]. rewrite E in Hc. inversion Hc.
     + intros ->. apply (no_cycle s p p St (dr_refl s p)), Hpd, Hc.
-  - intros m b Hm Hs. destruct (sta_scopes s St m b Hs) as [[r Hr] Hlt].
+  - intros m b Hm Hs Hpb. destruct (sta_scopes s St m b Hs) as [[r Hr] Hlt].
     split; [|split; [apply (bw_kind_lhs s b r (sta_binds s St b r Hr))|lia]].
     destruct (decide (m ∈ b_rhsNodes (bd s b))) as [|Hno]; [assumption|].
-    pose proof (Hdead m b (has_inGraph s m Hm) Hs Hno) as E. rewrite (b_valid _ _ B m Hm) in E. discriminate.
+    pose proof (Hdead m b (has_inGraph s m Hm) Hs Hno Hpb) as E. rewrite (b_valid _ _ B m Hm) in E. discriminate.
   - intros p b Hp Hk. pose proof (sta_kinds s St p Hp) as K. rewrite Hk in K. symmetry. apply K.
   - intros b r Hr. unfold bd in Hr. destruct (binds s !! b) as [rec|] eqn:E; [|inversion Hr].
     simpl in Hr. destruct (bw_rhsNodes s b rec (sta_binds s St b rec E) r Hr) as [_ Hs].
-    destruct (sta_scopes s St r b Hs) as [_ Hlt]. lia.
+    destruct (sta_scopes s St r b Hs) as [_ Hlt]. split; [lia|exact Hs].
+  - exact Hpop.
 Qed.
 
 Lemma BInv_after_adjust X s1 s2 :
@@ -3816,7 +3843,8 @@ Qed.
 
 Lemma addChild_spec fuel s c p s' e :
   Sta s -> BInv [c] s -> adj_idle s -> invq s = [] ->
-  (forall n b, has s n -> scope (nd s n) = Some b -> ~ inGen s b n -> valid (nd s n) = false) ->
+  (forall n b, has s n -> scope (nd s n) = Some b -> ~ inGen s b n ->
+     valid (nd s n) = false \/ (inGraph (nd s b) = true /\ height (nd s b) < height (nd s c))) ->
   has s c -> has s p ->
   inGraph (nd s c) = true -> isNecessary (nd s c) = true -> valid (nd s p) = true ->
   parents (nd s c) ++ [p] = decl (nd s c) ->
@@ -3923,13 +3951,8 @@ Proof.
                 | None => BInv [] s3 /\ ac_frame s2 s3 /\ invq s3 = [] /\ adj_idle s3
                 end).
   { destruct (Z.geb_spec (height (nd s2 p)) (height (nd s2 c))) as [Hge|Hlt].
-    - assert (AS : AStat s2).
-      { apply (AStat_of [c] s2 St2 B2).
-        - intros x ->%elem_of_list_singleton. split; [rewrite Hgc2, Hnc2; reflexivity|].
-          intros q. rewrite Hpar2. auto.
-        - intros n b. rewrite (bf_has _ _ F02). destruct (bf_static _ _ F02 n) as (_ & _ & -> & -> & _).
-          unfold inGen, bd. rewrite (bf_binds _ _ F02). apply Hdead. }
-      assert (HI : HInv (fun m q => m = c /\ q = p) noEx s2).
+    - set (Pop := fun x => height (nd s2 c) <= height (nd s2 x)).
+      assert (HI : HInv Pop (fun m q => m = c /\ q = p) noEx s2).
       { destruct Hidle2 as (I1 & I2 & I3). constructor.
         - intros m Hm. destruct (decide (m = c)) as [->|Hmc]; [rewrite Hhc2, Hmh2; exact Hrange|].
           apply (b_height _ _ B2 m); [intros Hx%elem_of_list_singleton; contradiction|exact Hm].
@@ -3943,13 +3966,30 @@ Proof.
             rewrite Hb in Hs. exact Hs.
         - intros m Hm. apply (b_zero1 _ _ B2 m Hm).
         - destruct (b_heap _ _ B2) as [E1 E2]. split; [exact E1|]. intros n Hn. destruct (E2 n Hn). auto.
-        - apply adj_idle_ok. repeat split; assumption. }
-      pose proof (adjustHeights_spec fuel s2 c p s3 e3 AS HI Hgc2 ltac:(congruence) H3) as R.
+        - apply adj_idle_ok. repeat split; assumption.
+        - intros x Hx. rewrite I3 in Hx. congruence. }
+      assert (AS : AStat Pop s2).
+      { apply (AStat_of Pop [c] s2 St2 B2).
+        - intros x ->%elem_of_list_singleton. split; [rewrite Hgc2, Hnc2; reflexivity|].
+          intros q. rewrite Hpar2. auto.
+        - intros n b. rewrite (bf_has _ _ F02). destruct (bf_static _ _ F02 n) as (_ & _ & -> & -> & _).
+          unfold inGen, bd. rewrite (bf_binds _ _ F02). intros Hn Hs Hno Hpb.
+          destruct (Hdead n b Hn Hs Hno) as [Hv|[Hgb Hhb]]; [exact Hv|]. exfalso. unfold Pop in Hpb.
+          rewrite Hhc2 in Hpb. rewrite Hh2, Hh1 in Hpb by (rewrite Hg1; exact Hgb). lia.
+        - intros c' q Hpq Hgc' [Hc'|Hc'].
+          + destruct (decide (c' = c)) as [->|Hne]; [unfold Pop; lia|].
+            apply (edges_parent_child s2 c' q (b_edges _ _ B2)) in Hc'.
+            pose proof (h_par _ _ _ _ HI c' q Hgc' Hc' (proj2 (proj2 Hidle2) q)) as Hlt.
+            unfold Pop in *. assert (height (nd s2 q) < height (nd s2 c')); [|lia].
+            apply Hlt. intros [? _]. contradiction.
+          + pose proof (h_scope _ _ _ _ HI c' q Hgc' Hc' (proj2 (proj2 Hidle2) q)) as Hlt.
+            unfold Pop in *. assert (height (nd s2 q) < height (nd s2 c')); [|lia]. apply Hlt. intros []. }
+      pose proof (adjustHeights_spec Pop fuel s2 c p s3 e3 AS HI Hgc2 ltac:(congruence) ltac:(unfold Pop; lia) H3) as R.
       destruct e3 as [x|]; [exact R|]. destruct R as (R1 & R2 & R3).
-      destruct (HInv_done s3 R1 R2) as (D1 & D2 & D3 & D4 & D5).
+      destruct (HInv_done Pop s3 R1 R2) as (D1 & D2 & D3 & D4 & D5).
       split; [|split; [apply ac_frame_aj, R3|split; [rewrite (af_invq _ _ R3); exact Hq2|repeat split; assumption]]].
       apply (BInv_after_adjust [c] s2 s3 B2 R3 D4 D5).
-      + intros m. apply (h_zero _ _ _ R1).
+      + intros m. apply (h_zero _ _ _ _ R1).
       + intros x ->%elem_of_list_singleton. auto.
     - apply ok_inv in H3 as [-> ->].
       split; [|split; [apply ac_frame_refl|split; [exact Hq2|exact Hidle2]]].
@@ -4121,7 +4161,7 @@ Proof.
     pose proof (addChild_spec (opFuel s1) s1 n a s2 e2 St1 B1 Hidle1 (q_invq s (inv_quiet s HI))) as AC.
     assert (AC' : match e2 with None => BInv [] s2 /\ ac_frame s1 s2 /\ invq s2 = [] /\ adj_idle s2 | Some x => adj_err x end).
     { apply AC; auto.
-      - intros m b Hm Hs Hno. apply (r_vdead s1 R1 m b Hm Hs Hno).
+      - intros m b Hm Hs Hno. left. apply (r_vdead s1 R1 m b Hm Hs Hno).
       - apply Hhas, Hn.
       - apply Hhas, Ha.
       - rewrite Hg. exact Hgn.
@@ -5626,3 +5666,74 @@ Theorem wf_every_boundary_cond mh os s :
   bind_spec (fun _ => True) -> (0 < mh)%nat -> run_clean (init mh) os = Some s -> wfb s = true.
 Proof. intros HB Hmh H. apply Inv_wfb. apply (Inv_run_clean_cond mh os s HB Hmh H). Qed.
 
+(** ** Witnesses *)
+(* an operation rejected for the height limit leaves the state ill-formed (MaxHeight 6) *)
+Definition h_limit : list op :=
+  [NewVar 1 false; NewMap (Aff 1 1) 0%nat; NewMap (Aff 1 1) 1%nat; NewMap (Aff 1 1) 2%nat;
+   NewMap (Aff 1 1) 3%nat; NewMap (Aff 1 1) 4%nat; NewMap (Aff 1 1) 5%nat; Observe 6%nat].
+
+Theorem rejection_refuted : exists os s, run (init 6) os = Ok s /\ wfb s = false.
+Proof.
+  assert (H : match run (init 6) h_limit with Ok s => negb (wfb s) | _ => false end = true) by (vm_compute; reflexivity).
+  remember (run (init 6) h_limit) as r eqn:E. destruct r as [s| |]; [|discriminate H|discriminate H].
+  exists h_limit, s. split; [symmetry; exact E|]. destruct (wfb s); [discriminate H|reflexivity].
+Qed.
+
+(* why [op_clean] asks for top-level nodes: observing a node of a discarded bind generation *)
+Definition h_scope_leak : list op :=
+  [NewVar 1 false; NewBind [TMap (Aff 1 1) TX] 0%nat; Observe 2%nat; Stabilize [];
+   SetVar 0%nat 2; Stabilize []; Observe 5%nat].
+
+Theorem scope_leak_refuted : exists os s, run_unrejected (init 16) os = Some s /\ wfb s = false.
+Proof.
+  assert (H : match run_unrejected (init 16) h_scope_leak with Some s => negb (wfb s) | None => false end = true) by (vm_compute; reflexivity).
+  remember (run_unrejected (init 16) h_scope_leak) as r eqn:E. destruct r as [s|]; [|discriminate H].
+  exists h_scope_leak, s. split; [symmetry; exact E|]. destruct (wfb s); [discriminate H|reflexivity].
+Qed.
+
+(* ... and so does a top-level node that reads a scope node (found by local-prover) *)
+Definition h_scope_read : list op :=
+  [NewVar 1 false; NewBind [TMap (Aff 1 0) TX; TMap (Aff 1 1) TX] 0%nat; Observe 2%nat; Stabilize [];
+   NewMapN Sum [4%nat]; Observe 6%nat; Stabilize []; SetVar 0%nat 2; Stabilize []; AddInput 6%nat 0%nat].
+
+Theorem scope_read_refuted : exists os s, run_unrejected (init 256) os = Some s /\ wfb s = false.
+Proof.
+  assert (H : match run_unrejected (init 256) h_scope_read with Some s => negb (wfb s) | None => false end = true) by (vm_compute; reflexivity).
+  remember (run_unrejected (init 256) h_scope_read) as r eqn:E. destruct r as [s|]; [|discriminate H].
+  exists h_scope_read, s. split; [symmetry; exact E|]. destruct (wfb s); [discriminate H|reflexivity].
+Qed.
+
+(* why [op_clean] asks [AddInput n a] for [a < n]: a cycle declared while unobserved is not detected *)
+Definition h_cycle : list op :=
+  [NewMapN Sum []; NewMapN Sum [0%nat]; AddInput 0%nat 1%nat; Observe 1%nat].
+
+Theorem unobserved_cycle_refuted : exists os s, run_unrejected (init 16) os = Some s /\ wfb s = false.
+Proof.
+  assert (H : match run_unrejected (init 16) h_cycle with Some s => negb (wfb s) | None => false end = true) by (vm_compute; reflexivity).
+  remember (run_unrejected (init 16) h_cycle) as r eqn:E. destruct r as [s|]; [|discriminate H].
+  exists h_cycle, s. split; [symmetry; exact E|]. destruct (wfb s); [discriminate H|reflexivity].
+Qed.
+
+(* non-vacuity: a clean history with binds (nested, re-run, released) *)
+Definition h_binds : list op :=
+  [NewVar 1 false; NewBind [TMap (Aff 1 1) TX; TBind [TRet 3; TX] (TMap (Aff 2 1) TX)] 0%nat; Observe 2%nat;
+   Stabilize []; SetVar 0%nat 2; Stabilize []; SetVar 0%nat 3; Stabilize []; Unobserve 3%nat].
+
+Theorem clean_history_with_binds : exists s, run_clean (init 16) h_binds = Some s /\ wfb s = true.
+Proof.
+  assert (H : match run_clean (init 16) h_binds with Some s => wfb s | None => false end = true) by (vm_compute; reflexivity).
+  remember (run_clean (init 16) h_binds) as r eqn:E. destruct r as [s|]; [|discriminate H].
+  exists s. split; [reflexivity|exact H].
+Qed.
+
+Definition h_static : list op :=
+  [NewVar 1 false; NewVar 2 true; NewMap2 (Lin2 1 2 0) 0%nat 1%nat; NewCutoff CParity 2%nat; Observe 3%nat;
+   Stabilize []; SetVar 0%nat 5; Stabilize [(2%nat, WFn, AFail FErr)]; Stabilize []; Unobserve 4%nat].
+
+Theorem clean_bindfree_history : exists s,
+  forallb op_nobind h_static = true /\ run_clean (init 16) h_static = Some s.
+Proof.
+  assert (H : match run_clean (init 16) h_static with Some s => true | None => false end = true) by (vm_compute; reflexivity).
+  remember (run_clean (init 16) h_static) as r eqn:E. destruct r as [s|]; [|discriminate H].
+  exists s. split; reflexivity.
+Qed.
